@@ -4,7 +4,7 @@
    Proved here: the tree does not depend on the order in which a batch of distinct equal-length leaves
    is handed to batch insertion. *)
 From Coq Require Import List Bool NArith Permutation.
-From Akd Require Import NodeLabel ElemSet Hashing Tree Insert InsertFacts.
+From Akd Require Import NodeLabel ElemSet Hashing Tree Insert InsertFacts InsertRefine SpecFacts Spec.
 Import ListNotations.
 Open Scope N_scope.
 
@@ -14,3 +14,20 @@ Theorem C14_insertion_order_irrelevant : forall empty st elems elems' (len : N),
   batch_insert empty st elems = batch_insert empty st elems'.
 Proof. exact batch_insert_order. Qed.
 Print Assumptions C14_insertion_order_irrelevant.
+
+(* whole histories: permuting the elements inside every batch (the order in which parallel VRF
+   evaluation or any front end happens to deliver them) yields the identical tree *)
+Theorem C14_history_order_irrelevant : forall empty, canonical empty = false -> forall (cfg : config) bs bs',
+  (forall b, In b bs -> batch_ok b) -> NoDup (map e_label (concat bs)) ->
+  Forall2 (@Permutation elem) bs bs' ->
+  exists t t' num num', run_batches empty azks_new bs = Some (t, N.of_nat (length bs), num) /\
+    run_batches empty azks_new bs' = Some (t', N.of_nat (length bs), num') /\ t = t'.
+Proof. exact azks_history_order. Qed.
+Print Assumptions C14_history_order_irrelevant.
+
+(* the tree depends on the set of leaves only: it is the specification trie, whose definition has no
+   notion of batching, parallelism or insertion order *)
+Theorem C14_tree_is_function_of_leaves : forall t t', canon_root t -> canon_root t' ->
+  Permutation (sleaves t) (sleaves t') -> t = t'.
+Proof. exact canon_root_unique. Qed.
+Print Assumptions C14_tree_is_function_of_leaves.
